@@ -8,6 +8,7 @@ import (
 	"bytes"
 	"fmt"
 	"os"
+	"sort"
 	"strconv"
 	"sync"
 
@@ -112,9 +113,26 @@ func main() {
 			{`S + Tag`, []expr.Option{sharedStructOpt, expr.Operator("+", "AddS")}},
 			{`PtrMeth() + I`, []expr.Option{sharedStructOpt}},
 			{`undefinedFour == nil`, []expr.Option{sharedStructOpt, sharedUndef}},
+			{`len(5..1) + I`, []expr.Option{sharedStructOpt}},
+			{`I + len(S) + len(3..2)`, []expr.Option{sharedStructOpt}},
+			{`count(9..2, {# > 0}) == 0 ? "none" : "some"`, []expr.Option{sharedMapEnvOpt}},
+			{`                 all(7..6, {# != I})`, []expr.Option{sharedMapEnvOpt}},
 		}
 	}
 	ref2 := mkJobs()
+	progKey := func(p *vm.Program) string {
+		var locs []int
+		for k := range p.Locations {
+			locs = append(locs, k)
+		}
+		sort.Ints(locs)
+		s := fmt.Sprintf("%x|%d|", p.Bytecode, len(p.Constants))
+		for _, k := range locs {
+			s += fmt.Sprintf("%d:%d.%d,", k, p.Locations[k].Line, p.Locations[k].Column)
+		}
+		return s
+	}
+	soloKey := make([]string, len(ref2))
 	soloBC := make([][]byte, len(ref2))
 	for i, j := range ref2 {
 		p, err := expr.Compile(j.src, j.ops...)
@@ -123,6 +141,7 @@ func main() {
 			os.Exit(3)
 		}
 		soloBC[i] = p.Bytecode
+		soloKey[i] = progKey(p)
 	}
 	for r := 0; r < rounds; r++ {
 		jobs := mkJobs()
@@ -138,7 +157,7 @@ func main() {
 						i := (k + g) % len(jobs) // different goroutines start at different jobs
 						j := jobs[i]
 						p, err := expr.Compile(j.src, j.ops...)
-						if err != nil || !bytes.Equal(p.Bytecode, soloBC[i]) {
+						if err != nil || !bytes.Equal(p.Bytecode, soloBC[i]) || progKey(p) != soloKey[i] {
 							mu.Lock()
 							mismatch++
 							if mismatch < 5 {
